@@ -174,7 +174,9 @@ class CoopThread(threading.Thread):
 
     @property
     def daemon(self):
-        return self.__dict__.get("user_daemon", False)
+        # what threading's own machinery sees: always a daemon (a thread left blocked by an aborted schedule must not keep
+        # the interpreter from exiting); the flag the code under test asked for is `user_daemon`
+        return True
 
     @daemon.setter
     def daemon(self, v):
@@ -183,7 +185,7 @@ class CoopThread(threading.Thread):
         self.__dict__["user_daemon"] = bool(v)
 
     def isDaemon(self):
-        return self.daemon
+        return self.__dict__.get("user_daemon", False)
 
     def setDaemon(self, v):
         self.daemon = v
@@ -216,7 +218,8 @@ class CoopThread(threading.Thread):
         s = self._s
         if s.current is self:
             raise RuntimeError("cannot join current thread")
-        s.yield_(lambda: self.finished, what="join(%s)" % self.name)
+        # a bounded join may give up while the thread is still running (the thread may be arbitrarily slow)
+        s.yield_(lambda: self.finished, can_timeout=timeout is not None, what="join(%s)" % self.name)
 
     def is_alive(self):
         return self.started and not self.finished
@@ -232,7 +235,19 @@ class CoopQueue:
     def __init__(self, maxsize=0):
         self.items = []
         self.touched = set()
-        self.maxsize = maxsize if isinstance(maxsize, int) else 0
+        if isinstance(maxsize, int):
+            self.maxsize = maxsize
+        else:
+            # a symbolic capacity: decided by case split; 13 or more cannot fill up within the bounds of any configuration
+            self.maxsize = 0
+            try:
+                if maxsize > 0:
+                    for v in range(1, 13):
+                        if maxsize == v:
+                            self.maxsize = v
+                            break
+            except TypeError:
+                self.maxsize = 0
 
     def full(self):
         return self.maxsize > 0 and len(self.items) >= self.maxsize
